@@ -4223,6 +4223,10 @@ class DecAffine(Affine):
 
         event_adapt = self.event_adapt
 
+        for expr in (self, x, z):
+            if not getattr(expr, 'fixed', True):
+                raise ValueError('Incorrect convex expressions.')
+
         if isinstance(x, (DecVar, DecVarSub)):
             if x.to_affine().size > 1:
                 raise ValueError('The expression of x must be a scalar.')
@@ -4545,6 +4549,10 @@ class DecConvex(Convex):
 
     def __init__(self, convex, event_adapt):
 
+        for expr in (convex.affine_in, convex.affine_out):
+            if not getattr(expr, 'fixed', True):
+                raise ValueError('Incorrect convex expressions.')
+
         super().__init__(convex.affine_in, convex.affine_out,
                          convex.xtype, convex.sign, convex.multiplier,
                          convex.sum_axis, params=convex.params)
@@ -4769,6 +4777,11 @@ class ExpPiecewiseConvex(PiecewiseConvex):
 class DecPerspConvex(PerspConvex):
 
     def __init__(self, convex, event_adapt):
+
+        for expr in (convex.affine_in, convex.affine_scale,
+                     convex.affine_out):
+            if not getattr(expr, 'fixed', True):
+                raise ValueError('Incorrect convex expressions.')
 
         super().__init__(convex.affine_in, convex.affine_scale, convex.affine_out,
                          convex.xtype, convex.sign, convex.multiplier)
